@@ -243,6 +243,7 @@ def task_reject(shape, rational):
     for z in range(1, nk - 1):
         bad.append(("overflow", z))
     bad.append(("good+below",))
+    bad += [("ends", 1), ("ends", 2)]          # k copies of BOTH end knots: a clamped vector of degree p + k, i.e. no insertion (D29)
     for case in bad:
         ctx = H.new_ctx(shape, ["t", "y", "x0_0"] + pn + wn)
         H.positive(ctx, wn)
@@ -265,6 +266,8 @@ def task_reject(shape, rational):
                 nodes = [ks[case[1]]]
             elif case[0] == "overflow":
                 nodes = [ks[case[1]]] * (p + 2 - mults[case[1] - 1])
+            elif case[0] == "ends":
+                nodes = [ks[0]] * case[1] + [ks[-1]] * case[1]
             else:
                 nodes = [ctx.sym("x0_0"), y]
             curve = chk.call(curves.Curve, list(U), P, W)
@@ -337,9 +340,11 @@ def replay(o):
             nodes = [ks[case[1]]]
         elif case[0] == "overflow":
             nodes = [ks[case[1]]] * (p + 2 - shape[1][case[1] - 1])
+        elif case[0] == "ends":
+            nodes = [ks[0]] * case[1] + [ks[-1]] * case[1]
         else:
             nodes = [pt["x0_0"], pt["y"]]
-        curve = chk.call(curves.Curve, list(U), P, W)
+        curve = curves.Curve(list(U), P, W)
         before = (tuple(curve.knotvector), curve.ctrlpoints, curve.weights)
         try:
             curve.knot_insert(nodes)
@@ -369,7 +374,7 @@ def replay(o):
     if kind == "c04.curve":
         P = [pt["P%d" % i] for i in range(n)]
         W = [pt["w%d" % i] for i in range(n)] if w["rational"] else None
-        curve = chk.call(curves.Curve, list(U), P, W)
+        curve = curves.Curve(list(U), P, W)
         try:
             curve.knot_insert(nodes)
         except Exception as e:
